@@ -267,6 +267,13 @@ def main(argv=None):
         dump_json(path, {"property": prop, "what": "a generated cases file did not compile against the model (correspondence could not be checked)",
                          "errors": coq_errors})
         out_lines.append(f"VIOLATION property={prop} replay={path} no-failing-input-found")
+    if meta and meta.get("correspondence_unavailable"):
+        path = os.path.join(replay_dir, f"{prop}-correspondence.json")
+        dump_json(path, {"property": prop, "what": "part of the correspondence check can no longer be run against this source (the harness "
+                         "does not recognise the shape of the code it cuts out of the implementation); the remaining legs found no failing input"
+                         if not real else "part of the correspondence check can no longer be run against this source",
+                         "unavailable": meta["correspondence_unavailable"]})
+        out_lines.append(f"VIOLATION property={prop} replay={path} no-failing-input-found")
     if proof_broken and not real:
         path = os.path.join(replay_dir, f"{prop}-proof.json")
         dump_json(path, {"property": prop, "what": "a proof obligation of this property no longer checks against the facts regenerated from the source; the search (thorough generator, targeted faults) found no failing input",
